@@ -88,6 +88,21 @@ def check_templates(C, tab):
             if chosen[-1][0] == "NEWLINE":
                 C.ob(RP + "/lexer-line-start", label, modes <= {start} and bool(modes), "after the line's newline the lexer is in mode %s, expected line-start mode" % [lexer.mode_str(mv, m) for m in modes], "src/lex.rs")
             C.sample({"line": label, "lexer_modes_after": [lexer.mode_str(mv, m) for m in modes], "ok": ok})
+    # rejection half: a line that starts with a character no field name may start with ('-', ':', control and non-ASCII
+    # characters; '#', blanks and LF start other line forms) must not be tokenised as a field name, and a name must
+    # not run over characters outside the name alphabet
+    for ch in sorted(ALL - NAME_INIT - {"#", LF, CR} - WS):
+        cell = table.get((start, ch))
+        n += 1
+        C.ob(RP + "/lexer-rejects-name-start", "line starting with %s" % lexer.cname(ch), cell is not None and cell.get("kind") != "KEY",
+             "a line starting with %s is tokenised as a field name (%s): the strict reader would accept a line that is neither field, continuation, comment nor blank" % (lexer.cname(ch), cell.get("kind") if cell else None), "src/lex.rs")
+    for ch in sorted(NAME_INIT):
+        cell = table.get((start, ch))
+        rs = cell.get("runset") if cell else None
+        if cell is not None and cell.get("kind") == "KEY" and isinstance(rs, (set, frozenset)):
+            extra = set(rs) - NAME
+            C.ob(RP + "/lexer-name-alphabet", "name starting with %s" % lexer.cname(ch), not extra,
+                 "a field name may run over %s, which no field name contains" % sorted(lexer.cname(x) for x in extra)[:8], "src/lex.rs")
     return n
 
 
